@@ -121,8 +121,11 @@ def judge(ctx, suite, scs, rerun=None):
     broken = [s for s in scs if s.get("err")]
     scs = [s for s in scs if not s.get("err")]
     terms = [case_term(s) for s in scs]
-    bad_o = ctx.coq_eval_cases("c05_oracle_" + suite, HDR, terms, "oracle", shard=5)
-    bad_a = ctx.coq_eval_cases("c05_agree_" + suite, HDR, terms, "agree", shard=5)
+    # one pass for "oracle && agree"; the two are told apart only for the scenarios that fail
+    bad_both = ctx.coq_eval_cases("c05_both_" + suite, HDR, terms, "(fun c => oracle c && agree c)", shard=4)
+    tb = [terms[i] for i in bad_both]
+    bad_o = [bad_both[j] for j in ctx.coq_eval_cases("c05_oracle_" + suite, HDR, tb, "oracle", shard=4)]
+    bad_a = [bad_both[j] for j in ctx.coq_eval_cases("c05_agree_" + suite, HDR, tb, "agree", shard=4)]
     # a live rig can be disturbed by the environment (port, stalls > 5 s): a scenario that fails is
     # re-run once from its recorded operation list; only failures that reproduce are reported
     if rerun is not None and (bad_o or bad_a):
@@ -222,7 +225,7 @@ def run(ctx):
                 forced.append(json.load(open(os.path.join(cdir, f))))
     if forced:
         judge(ctx, "forced", [rerun(s) for s in forced], rerun)
-    n_live, n_raw = (24, 24) if ctx.quick else (300, 300)
+    n_live, n_raw = (20, 20) if ctx.quick else (300, 300)
     live = ctx.vh_jsonl(vh, "namespaces", ["-mode", "live", "-seed", ctx.seed, "-n", n_live, "-ops", 30, "-par", 6])
     if live is not None:
         judge(ctx, "live", live, rerun)
